@@ -115,3 +115,24 @@ extern "C" void h_wint_cast() {
   bool na = (a.v >> (w - 1)) & 1;
   covered(a.i.SExt(add), na ? (a.v | ~msk(w)) : a.v, w + add, 7);
 }
+
+#ifndef TK
+#define TK 2
+#endif
+extern "C" void h_wint_trunc() { // Trunc alone, concrete source width (FIXW) and target width (TK)
+  uint64_t w = ndw();
+  opnd a = mk(w);
+  v_assume(TK < w);
+  covered(a.i.Trunc(TK), a.v, TK, 1);
+}
+extern "C" void h_wint_zext() {
+  uint64_t w = ndw();
+  opnd a = mk(w);
+  covered(a.i.ZExt(TK), a.v, w + TK, 1);
+}
+extern "C" void h_wint_sext() {
+  uint64_t w = ndw();
+  opnd a = mk(w);
+  bool na = (a.v >> (w - 1)) & 1;
+  covered(a.i.SExt(TK), na ? (a.v | ~msk(w)) : a.v, w + TK, 1);
+}
